@@ -235,226 +235,180 @@ def _nonneg(r):
 
 
 def rule_E(ctx):
-    """C20.E inclusion test is a closed interval in both orders, for x and y"""
+    """C20.E inclusion test is a closed interval in both orders, for x and y (decided on the return paths, whatever their syntax)"""
+    from .c03 import cond_eval
     f = ctx.prog.func(GEO + '.proj_segment')
-    body = body_nodocstring(f)
-    # the top-level if whose branches return
-    tests = [s for s in body if isinstance(s, ast.If) and any(isinstance(n, ast.Return) for n in ast.walk(s))]
-    if len(tests) != 1:
-        raise shape_error('proj_segment: cannot identify the inclusion test', f.loc())
-    iff = tests[0]
-    idx = body.index(iff)
-    # backward slice of plain-name assignments feeding the test
-    need = {n.id for n in ast.walk(iff.test) if isinstance(n, ast.Name)}
-    sl = []
-    base = {'xproj', 'yproj'}
-    for s in reversed(body[:idx]):
-        if isinstance(s, ast.Assign) and len(s.targets) == 1 and isinstance(s.targets[0], ast.Name) \
-                and s.targets[0].id in need:
-            # stop at the definitions of the projected point and of the segment coordinates
-            names = {n.id for n in ast.walk(s.value) if isinstance(n, ast.Name)}
-            if isinstance(s.value, (ast.Compare, ast.BoolOp, ast.BinOp, ast.UnaryOp, ast.Name)) and \
-                    not any(isinstance(n, (ast.Call, ast.Subscript)) for n in ast.walk(s.value)):
-                sl.append(s)
-                need |= names
-    sl.reverse()
-    # identify the six geometric inputs among the needed names: those not defined in the slice
-    defined = {s.targets[0].id for s in sl}
-    inputs = sorted(n for n in need if n not in defined)
-    # roles from the walker: which inputs are the projected point / the segment coordinates
-    w = Walker(f, loop_mode='skip', inline=_inline(ctx))
-    st0 = State({f.params[0]: _seg_state(), f.params[1]: Rat.atom('x'), f.params[2]: Rat.atom('y')})
-    pre = [o for o in w.run(body[:idx], st0) if o.kind == 'fall']
-    if not pre:
-        raise shape_error('proj_segment prologue has no fall-through path', f.loc())
-    env = pre[-1].state.env          # general (non-vertical) path
-    role = {}
-    x1, y1, x2, y2 = _seg_state()
-    for n in inputs:
-        v = env.get(n)
-        if isinstance(v, Rat):
-            for nm, ref in (('x1', x1), ('y1', y1), ('x2', x2), ('y2', y2)):
-                if w.rel.is_zero(v - ref):
-                    role[n] = nm
-    others = [n for n in inputs if n not in role]
-    if len(others) != 2 or sorted(role.values()) != ['x1', 'x2', 'y1', 'y2']:
-        raise shape_error('inclusion test inputs not understood: %s' % inputs, f.loc(iff))
-    # which of the two others is the x of the foot: the one compared with x1/x2
-    px = py = None
-    for n in ast.walk(ast.Module(body=sl + [ast.Expr(value=iff.test)], type_ignores=[])):
-        if isinstance(n, ast.Compare):
-            names = [m.id for m in ast.walk(n) if isinstance(m, ast.Name)]
-            rs = {role.get(m) for m in names}
-            for o_ in others:
-                if o_ in names:
-                    if rs & {'x1', 'x2'}:
-                        px = o_
-                    if rs & {'y1', 'y2'}:
-                        py = o_
-    if px is None or py is None or px == py:
-        raise shape_error('cannot tell the x and y of the projected point in the inclusion test', f.loc(iff))
-    inv = {v: k for k, v in role.items()}
+    w = Walker(f, loop_mode='skip', inline={'cartesienne': ctx.prog.func(GEO + '.cartesienne')})
+    s, xn, yn = f.params[:3]
+    st0 = State({s: _seg_state(), xn: Rat.atom('x'), yn: Rat.atom('y')})
+    rets = [o for o in w.run(body_nodocstring(f), st0) if o.kind == 'return']
+    if not rets or any(not isinstance(o.value, (tuple, list)) or len(o.value) != 3 for o in rets):
+        raise shape_error('proj_segment must return (distance, x, y)', f.loc())
+    kinds = [('end' if _is_endpoint(w, o.value[1], o.value[2], o.state) else 'foot') for o in rets]
+    if 'end' not in kinds or 'foot' not in kinds:
+        raise shape_error('proj_segment: expected a foot return and end-point returns', f.loc())
+
+    def role_of(v):
+        a = v.single_atom() if isinstance(v, Rat) else None
+        if a is None:
+            return None
+        if a in ('x1', 'x2', 'y1', 'y2'):
+            return a
+        if a.startswith('projection_droite(') and a.endswith('[0]'):
+            return 'xp'
+        if a.startswith('projection_droite(') and a.endswith('[1]'):
+            return 'yp'
+        return None
+    n_incl = 0
+    for o in rets:
+        for c, _ in o.state.conds:
+            n_incl += ('projection_droite(' in repr(c))
+    if n_incl == 0:
+        raise shape_error('proj_segment: no test on the projected point found', f.loc())
     bad = []
     total = 0
     for ox in orders.weak_orderings(['p', 'a', 'b']):
         for oy in orders.weak_orderings(['p', 'a', 'b']):
-            e = {px: ox['p'], inv['x1']: ox['a'], inv['x2']: ox['b'],
-                 py: oy['p'], inv['y1']: oy['a'], inv['y2']: oy['b']}
-            try:
-                orders.run_block(sl, e)
-                got = bool(orders.ev(iff.test, e))
-            except orders.Unsupported as ex:
-                raise shape_error('inclusion test not interpretable: %s' % ex, f.loc(iff))
+            val = {'xp': ox['p'], 'x1': ox['a'], 'x2': ox['b'], 'yp': oy['p'], 'y1': oy['a'], 'y2': oy['b']}
+
+            def oracle(c):
+                if c.kind != 'cmp':
+                    return None
+                ra, rb = role_of(c.a), role_of(c.b)
+                if ra is None or rb is None:
+                    if 'projection_droite(' in repr(c):
+                        raise shape_error('inclusion test not understood: %r' % c, f.loc())
+                    return None
+                u, v = val[ra], val[rb]
+                return {'<': u < v, '<=': u <= v, '==': u == v, '!=': u != v}[c.op]
+            feas = set()
+            for o, k in zip(rets, kinds):
+                if all(cond_eval(c, oracle) is not False for c, _ in o.state.conds):
+                    feas.add(k)
             want = (min(ox['a'], ox['b']) <= ox['p'] <= max(ox['a'], ox['b'])) and \
                    (min(oy['a'], oy['b']) <= oy['p'] <= max(oy['a'], oy['b']))
             total += 1
+            if len(feas) != 1:
+                raise shape_error('proj_segment: the returns are not selected by the inclusion test alone (ordering %s / %s -> %s)'
+                                  % (orders.describe(ox), orders.describe(oy), sorted(feas)), f.loc())
+            got = feas == {'foot'}
             if got != want and len(bad) < 4:
                 bad.append({'x ordering (p=foot,a=x1,b=x2)': orders.describe(ox),
                             'y ordering (p=foot,a=y1,b=y2)': orders.describe(oy),
                             'test says inside': got, 'foot is inside the segment box': want})
     ctx.check(not bad, 'C20.E', f,
               'inclusion test == (min(x1,x2) <= xp <= max(x1,x2)) and (min(y1,y2) <= yp <= max(y1,y2)) on all %d '
-              'orderings' % total, witness={'counter-examples': bad}, node=iff, key='inclusion')
+              'orderings' % total, witness={'counter-examples': bad}, node=f.node, key='inclusion')
+
+
+def _resolver(ctx, module, stubs):
+    """orders resolver: calls to module-level repository functions of `module` are interpreted (helpers extracted by a refactoring)"""
+    funcs = dict(stubs)
+
+    def resolve(call, fname):
+        if isinstance(call.func, ast.Name):
+            fi = ctx.prog.maybe_func(module + '.' + fname)
+            if fi is not None and fi.cls is None:
+                return orders.make_func(fi.node, funcs)
+        return None
+    funcs['__resolve__'] = resolve
+    funcs.update({'sqrt': __import__('math').sqrt, 'fabs': abs, 'floor': __import__('math').floor})
+    return funcs
+
+
+class _Witness(Exception):
+    def __init__(self, key, desc, wit):
+        self.key, self.desc, self.wit = key, desc, wit
 
 
 def rule_P(ctx):
-    """C20.P minimum over all segments with co-updated index; degenerate segments skipped before the call"""
+    """C20.P proj_polyligne = minimum over all non-degenerate segments, with the point and the index of the segment attaining it.
+
+    proj_polyligne depends on its input only through (a) which consecutive vertices coincide, (b) the order of the distances returned
+    by proj_segment (an uninterpreted function here) and (c) the positions it reads.  The function body is interpreted (by
+    tlint.orders, not executed) on the finite case domain: polylines of 2..5 vertices with at most one repeated vertex, every weak
+    ordering of the distances of up to three proper segments, and single segments of every direction of a 6x6 lattice."""
     f = ctx.prog.func(GEO + '.proj_polyligne')
-    body = body_nodocstring(f)
-    loops = [s for s in body if isinstance(s, ast.For)]
-    if len(loops) != 1:
-        raise shape_error('proj_polyligne: expected one loop over the segments', f.loc())
-    loop = loops[0]
-    w = Walker(f, loop_mode='skip')
     Xp, Yp, xq, yq = f.params[:4]
-    pre = [o for o in w.run(body[:body.index(loop)], State()) if o.kind == 'fall'][0].state
-    rng = w.range_info(loop.iter, pre)
-    if rng is None:
-        raise shape_error('segment loop is not a range loop', f.loc(loop))
-    lo, hi, step = rng
-    ctx.check(w.rel.is_zero(lo) and w.rel.is_zero(hi - (Rat.atom('len(%s)' % Xp) - Rat.const(1))) and
-              w.rel.is_zero(step - Rat.const(1)), 'C20.P', f,
-              'the loop visits every segment: range(len(X) - 1)',
-              witness={'range': [repr(lo), repr(hi), repr(step)]}, node=loop, key='range')
-    iv = loop.target.id
-    st = pre.fork()
-    st.events = []
-    assigned = sorted(names_stored(loop.body))
-    for v in assigned:
-        st.env[v] = Rat.atom(v + '@')
-    st.env[iv] = Rat.atom(iv)
-    outs = list(w.run(loop.body, st))
-    # the minimum variable: returned first, and compared in the body
-    rets = [s for s in body if isinstance(s, ast.Return)]
-    if len(rets) != 1 or not isinstance(rets[0].value, ast.Tuple) or len(rets[0].value.elts) != 4 or \
-            not all(isinstance(e, ast.Name) for e in rets[0].value.elts):
-        raise shape_error('proj_polyligne must return (distmin, xproj, yproj, iproj) names', f.loc())
-    vmin, vx, vy, vi = [e.id for e in rets[0].value.elts]
-    n_upd = 0
-    n_call = 0
-    for o in outs:
-        ev_assign = {e.name: e for e in o.state.events if e.kind == 'assign'}
-        calls = [e for e in o.state.events if e.kind == 'call' and e.name == 'proj_segment']
-        skipped = o.kind == 'continue' and not calls
-        if calls:
-            n_call += 1
-            call = calls[0]
-            seg = call.args[0]
-            exp = [Rat.atom('%s[%s]' % (Xp, iv)), Rat.atom('%s[%s]' % (Yp, iv)),
-                   Rat.atom('%s[%s]' % (Xp, repr(Rat.atom(iv) + Rat.const(1)))),
-                   Rat.atom('%s[%s]' % (Yp, repr(Rat.atom(iv) + Rat.const(1))))]
-            okseg = isinstance(seg, (list, tuple)) and len(seg) == 4 and \
-                all(isinstance(s_, Rat) and w.rel.is_zero(s_ - e_) for s_, e_ in zip(seg, exp))
-            okq = len(call.args) >= 3 and all(isinstance(q, Rat) for q in call.args[1:3]) and \
-                w.rel.is_zero(call.args[1] - Rat.atom(xq)) and w.rel.is_zero(call.args[2] - Rat.atom(yq))
-            ctx.check(okseg and okq, 'C20.P', f,
-                      'segment i is (X[i],Y[i])-(X[i+1],Y[i+1]) and the query is (x,y), in this argument order',
-                      witness={'segment passed': [repr(s_) for s_ in seg] if isinstance(seg, (list, tuple)) else repr(seg),
-                               'query passed': [repr(q) for q in call.args[1:3]]}, node=call.node, key='segargs')
-            res = call.value
-        changed = [v for v in (vmin, vx, vy, vi) if v in ev_assign]
-        if changed:
-            n_upd += 1
-            if not calls:
-                ctx.violation('C20.P', f, 'the minimum is updated only from a projection result',
-                              {'assigned': changed}, node=loop, key='upd-nocall')
-                continue
-            want = {vmin: Rat.atom(res + '[0]'), vx: Rat.atom(res + '[1]'), vy: Rat.atom(res + '[2]'),
-                    vi: Rat.atom(iv)}
-            missing = [v for v in want if v not in ev_assign]
-            wrongv = [v for v in want if v in ev_assign and not (isinstance(ev_assign[v].value, Rat) and
-                                                                  w.rel.is_zero(ev_assign[v].value - want[v]))]
-            ctx.check(not missing and not wrongv, 'C20.P', f,
-                      'distance, projected point and segment index are updated together from the same projection',
-                      witness={'not updated on this path': missing, 'updated from something else': wrongv,
-                               'path': [repr(c) for c, _ in o.state.conds]}, node=loop, key='coupdate')
-            # guarded by dist < distmin
-            g = False
-            for cn, _ in o.state.conds:
-                for cj in cn.conjuncts():
-                    if cj.kind == 'cmp' and cj.op in ('<', '<=') and isinstance(cj.a, Rat) and isinstance(cj.b, Rat) \
-                            and w.rel.is_zero(cj.a - want[vmin]) and w.rel.is_zero(cj.b - Rat.atom(vmin + '@')):
-                        g = True
-            ctx.check(g, 'C20.P', f, 'the update is guarded by new distance < current minimum',
-                      witness={'path': [repr(c) for c, _ in o.state.conds]}, node=loop, key='guard')
-    if n_upd == 0 or n_call == 0:
-        raise shape_error('proj_polyligne loop: no update path found', f.loc(loop))
-    # initial minimum is +infinity (larger than any distance)
-    v0 = pre.env.get(vmin)
-    big = isinstance(v0, Rat) and ((v0.isconst() and v0.constval() >= 10 ** 30) or (v0.single_atom() or '').startswith('inf'))
-    ctx.check(big, 'C20.P', f, 'the running minimum starts above any possible distance',
-              witness={'initial value': repr(v0)}, node=loop, key='init')
-    # degenerate-segment guard, evaluated on a lattice of (dx, dy)
-    guards = [s for s in loop.body if isinstance(s, ast.If) and any(isinstance(n, ast.Continue) for n in s.body)]
-    callstmt_idx = min(i for i, s in enumerate(loop.body) if any(
-        isinstance(n, ast.Call) and getattr(n.func, 'id', None) == 'proj_segment' for n in ast.walk(s)))
-    guards = [g_ for g_ in guards if loop.body.index(g_) < callstmt_idx]
-    if not guards:
-        ctx.violation('C20.P', f, 'zero-length segments are skipped before proj_segment is called '
-                                  '(proj_segment divides by the segment length)',
-                      {'why': 'no `continue` guard precedes the call'}, node=loop, key='noskip')
-        return
-    g_ = guards[0]
-    pre_stmts = loop.body[:loop.body.index(g_)]
-    bad = []
-    L = [-2, -1, 0, 1, 2, 3]
-    for dx, dy in itertools.product(L, L):
-        env = {Xp: [0, dx], Yp: [0, dy], iv: 0}
+    QX, QY = 0.5, 77.0
+    cases = 0
+
+    def run(X, Y, rank):
+        segs = {(X[k], Y[k], X[k + 1], Y[k + 1]): k for k in range(len(X) - 1)}
+        called = []
+
+        def proj_segment(seg, x, y):
+            key = tuple(seg) if isinstance(seg, (list, tuple)) else None
+            if key not in segs:
+                raise _Witness('segargs', 'every segment handed to proj_segment is a pair of consecutive vertices (X[i],Y[i])-(X[i+1],Y[i+1])',
+                               {'polyline': list(zip(X, Y)), 'segment passed': list(seg) if key else repr(seg)})
+            if (x, y) != (QX, QY):
+                raise _Witness('segargs', 'the query point is handed to proj_segment as (x, y)', {'query': [QX, QY], 'passed': [x, y]})
+            k = segs[key]
+            if (X[k], Y[k]) == (X[k + 1], Y[k + 1]):
+                raise _Witness('noskip', 'zero-length segments are skipped before proj_segment is called (it divides by the segment length)',
+                               {'polyline': list(zip(X, Y)), 'degenerate segment passed': k})
+            called.append(k)
+            return (rank[k], 1000 + k, 2000 + k)
+        funcs = _resolver(ctx, GEO, {'proj_segment': proj_segment})
         try:
-            _run_with_subscripts(pre_stmts, env)
-            skip = bool(_ev_sub(g_.test, env))
+            res = orders.make_func(f.node, funcs)(list(X), list(Y), QX, QY)
         except orders.Unsupported as ex:
-            raise shape_error('degenerate-segment guard not interpretable: %s' % ex, f.loc(g_))
-        if skip != (dx == 0 and dy == 0):
-            bad.append({'segment': '(0,0)-(%d,%d)' % (dx, dy), 'skipped': skip})
-    ctx.check(not bad, 'C20.P', f,
-              'a segment is skipped iff it has zero length (evaluated on a lattice of 36 (dx,dy) patterns)',
-              witness={'wrongly handled segments': bad[:6]}, node=g_, key='degenerate')
+            m_ = str(ex)
+            if m_.startswith('free name ') and m_[10:] in names_stored(f.node.body):
+                raise _Witness('fails', 'proj_polyligne does not fail on a polyline with a proper segment',
+                               {'polyline': list(zip(X, Y)), 'exception': 'UnboundLocalError: %s is never assigned (no segment was projected)' % m_[10:]})
+            raise shape_error('proj_polyligne not interpretable: %s' % ex, f.loc())
+        except (IndexError, KeyError, NameError, TypeError, ZeroDivisionError) as ex:
+            raise _Witness('fails', 'proj_polyligne does not fail on a polyline with a proper segment',
+                           {'polyline': list(zip(X, Y)), 'exception': '%s: %s' % (type(ex).__name__, ex)})
+        return res, called
 
-
-def _ev_sub(n, env):
-    """orders.ev with subscripts of concrete lists"""
-    class T(ast.NodeTransformer):
-        def visit_Subscript(self, node):
-            node = self.generic_visit(node)
-            try:
-                base = orders.ev(node.value, env)
-                idx = orders.ev(node.slice, env)
-                return ast.Constant(value=base[idx])
-            except Exception:
-                return node
-    import copy
-    return orders.ev(T().visit(copy.deepcopy(n)), env)
-
-
-def _run_with_subscripts(stmts, env):
-    for s in stmts:
-        if isinstance(s, ast.Assign) and len(s.targets) == 1 and isinstance(s.targets[0], ast.Name):
-            env[s.targets[0].id] = _ev_sub(s.value, env)
-        elif isinstance(s, ast.Expr) and isinstance(s.value, ast.Constant):
-            pass
-        else:
-            raise orders.Unsupported('statement before the guard: %s' % unparse(s))
+    def expect(X, Y, rank, res):
+        proper = [k for k in range(len(X) - 1) if (X[k], Y[k]) != (X[k + 1], Y[k + 1])]
+        m = min(rank[k] for k in proper)
+        arg = [k for k in proper if rank[k] == m]
+        ok = isinstance(res, tuple) and len(res) == 4 and res[0] == m and any(res[1:] == (1000 + k, 2000 + k, k) for k in arg)
+        if not ok:
+            got = list(res) if isinstance(res, tuple) else repr(res)
+            why = 'distance is not the minimum over the proper segments' if not (isinstance(res, tuple) and len(res) == 4 and res[0] == m) else \
+                  'the point / index returned do not belong to the segment attaining the minimum (index must be the position of its first vertex in the polyline)'
+            raise _Witness('minimum', 'the result is (min distance, its projected point, index of the segment that carries it)',
+                           {'polyline': list(zip(X, Y)), 'distance rank per segment (proper ones)': {k: rank[k] for k in proper},
+                            'returned (distance, x, y, index) with x=1000+k, y=2000+k for segment k': got, 'why': why})
+    try:
+        for n in (2, 3, 4, 5):
+            base = [(float(3 * k), float(k * k + 1)) for k in range(n)]
+            variants = [base] + [base[:r + 1] + [base[r]] + base[r + 1:n - 1] for r in range(n - 1)] if n >= 3 else [base]
+            for pts in variants:
+                X, Y = [p_[0] for p_ in pts], [p_[1] for p_ in pts]
+                proper = [k for k in range(n - 1) if pts[k] != pts[k + 1]]
+                if not proper or len(proper) > 3:
+                    continue
+                for od in orders.weak_orderings(['s%d' % k for k in proper]):
+                    rank = {k: od['s%d' % k] for k in proper}
+                    res, _ = run(X, Y, rank)
+                    cases += 1
+                    expect(X, Y, rank, res)
+        L = [-2, -1, 0, 1, 2, 3]
+        for dx, dy in itertools.product(L, L):
+            if (dx, dy) == (0, 0):
+                continue
+            X, Y = [10.0, 10.0 + dx], [20.0, 20.0 + dy]
+            res, called = run(X, Y, {0: 1})
+            cases += 1
+            if called != [0]:
+                raise _Witness('degenerate', 'a segment is skipped only if it has zero length',
+                               {'segment': '(10,20)-(%g,%g)' % (X[1], Y[1]), 'projected': False,
+                                'why': 'a proper segment of this direction is treated as degenerate: the nearest point on it is never found'})
+            expect(X, Y, {0: 1}, res)
+    except _Witness as wt:
+        ctx.violation('C20.P', f, wt.desc, wt.wit, node=f.node, key=wt.key)
+        return
+    ctx.ok('C20.P', f, 'proj_polyligne returns (minimum distance over the proper segments, the projected point and the index of a segment attaining it), '
+                       'skips exactly the zero-length segments, passes consecutive vertex pairs and the query in order: %d cases of the finite case domain' % cases,
+           node=f.node)
+    ctx.extra['C20.P cases'] = cases
 
 
 def rule_W(ctx):
@@ -491,31 +445,97 @@ def rule_W(ctx):
               'returns (ENUCoords(xproj, yproj, .), distance, segment index) = tuple positions (1,2), 0, 3',
               witness={'returned': [repr(x)[:100] for x in v] if isinstance(v, tuple) else repr(v)}, node=o.node,
               key='ret')
-    # mapOnTrack: per-observation wiring
+    # mapOnTrack: per-observation wiring.  The function only moves values around (no arithmetic on them): interpret it with abstract
+    # objects - a track of three observations (two share their X, two share their Y, none coincide) and an uninterpreted projector
     g = ctx.prog.func(MAP + '.mapOnTrack')
-    loops = [n for n in ast.walk(g.node) if isinstance(n, ast.For)]
-    if len(loops) != 1:
-        raise shape_error('mapOnTrack: expected one loop', g.loc())
-    wg = Walker(g, loop_mode='skip')
-    lv = loops[0].target.id
-    st = State({lv: Rat.atom(lv)})
-    bouts = [o_ for o_ in wg.run(loops[0].body, st)]
-    if len(bouts) != 1:
-        raise shape_error('mapOnTrack loop body is not single-path', g.loc(loops[0]))
-    evs = bouts[0].state.events
-    pc = [e for e in evs if e.kind == 'call' and e.name.endswith('projOnTrack')]
-    stores = [e for e in evs if e.kind == 'store']
-    okm = len(pc) == 1 and len(stores) == 2
-    if okm:
-        r = pc[0].value
-        vals = {e.name: e for e in stores}
-        okm = all(isinstance(e.index, Rat) and wg.rel.is_zero(e.index - Rat.atom(lv)) for e in stores) and \
-            'dist' in vals and 'edge' in vals and \
-            vals['dist'].value.single_atom() == r + '[1]' and vals['edge'].value.single_atom() == r + '[2]'
-        a0 = pc[0].args[0].single_atom() if isinstance(pc[0].args[0], Rat) else ''
-        okm = okm and a0 == '%s[%s].position' % (g.params[0], lv)
-    ctx.check(okm, 'C20.W', g, 'mapOnTrack stores distance (position 1) and segment index (position 2) of observation i at i',
-              witness={'stores': [repr(e) for e in stores]}, node=loops[0], key='mapOnTrack')
+    pj_name = f.name
+
+    class Pos(orders.PyStub):
+        def __init__(self, x, y):
+            self.x, self.y = x, y
+
+        def getX(self):
+            return self.x
+
+        def getY(self):
+            return self.y
+
+    class Pt(orders.PyStub):
+        def __init__(self, tag):
+            self.tag = tag
+
+        def copy(self):
+            return Pt(self.tag)
+
+        def __eq__(self, o):
+            return isinstance(o, Pt) and o.tag == self.tag
+
+        def __repr__(self):
+            return 'point%r' % (self.tag[1:],)
+
+    class ObsS(orders.PyStub):
+        def __init__(self, position):
+            self.position = position
+
+    class Track(orders.PyStub):
+        __module__ = 'tracklib.core.track'
+
+        def __init__(self, obs=None):
+            self.obs = list(obs or [])
+            self.af = {}
+
+        def __len__(self):
+            return len(self.obs)
+
+        def size(self):
+            return len(self.obs)
+
+        def __getitem__(self, i):
+            return self.obs[i]
+
+        def getObs(self, i):
+            return self.obs[i]
+
+        def addObs(self, o):
+            self.obs.append(o)
+
+        def createAnalyticalFeature(self, name, val=0.0):
+            self.af[name] = list(val) if isinstance(val, list) else [val] * len(self.obs)
+
+        def setObsAnalyticalFeature(self, name, i, v):
+            self.af[name][i] = v
+    Track.__qualname__ = Track.__name__ = 'Track'
+    pts = [(1.0, 1.0), (1.0, 2.0), (3.0, 2.0)]
+    src = Track([ObsS(Pos(*p_)) for p_ in pts])
+    ref = Track()
+
+    def projector(pos, track):
+        if not isinstance(pos, Pos) or track is not ref:
+            raise _Witness('mapOnTrack', 'each observation position and the reference track are handed to the projector', {'passed': repr(pos)})
+        return (Pt(('P', pos.x, pos.y)), ('D', pos.x, pos.y), ('E', pos.x, pos.y))
+    funcs = {pj_name: projector, 'Track': lambda *a_: Track(*a_), 'Obs': lambda p_, *a_: ObsS(p_)}
+    bad = None
+    try:
+        out = orders.make_func(g.node, funcs)(src, ref)
+        if not isinstance(out, Track) or len(out.obs) != 3 or 'dist' not in out.af or 'edge' not in out.af:
+            raise shape_error('mapOnTrack(track, track): result not understood', g.loc())
+        for i, p_ in enumerate(pts):
+            got = (out.obs[i].position, out.af['dist'][i], out.af['edge'][i])
+            want = (Pt(('P',) + p_), ('D',) + p_, ('E',) + p_)
+            if got != want and bad is None:
+                bad = {'observation': i, 'position': list(p_), 'stored (point, distance, segment index)': repr(got), 'projection of that position': repr(want),
+                       'positions of the track': [list(q_) for q_ in pts]}
+        single = orders.make_func(g.node, funcs)(Pos(5.0, 6.0), ref)
+        if single != (Pt(('P', 5.0, 6.0)), ('D', 5.0, 6.0), ('E', 5.0, 6.0)) and bad is None:
+            bad = {'single coordinate': [5.0, 6.0], 'returned': repr(single)}
+    except orders.Unsupported as ex:
+        raise shape_error('mapOnTrack not interpretable: %s' % ex, g.loc())
+    except _Witness as wt:
+        bad = wt.wit
+    except (IndexError, KeyError, TypeError, AttributeError) as ex:
+        bad = {'exception': '%s: %s' % (type(ex).__name__, ex)}
+    ctx.check(bad is None, 'C20.W', g, 'mapOnTrack stores, for observation i, the point, distance and segment index of the projection of position i (and returns the projection itself for a single coordinate)',
+              witness=bad, node=g.node, key='mapOnTrack')
 
 
 RULES = [
